@@ -160,6 +160,18 @@ func (e *End) SetDeadline(t time.Time) error      { return nil }
 func (e *End) SetReadDeadline(t time.Time) error  { return nil }
 func (e *End) SetWriteDeadline(t time.Time) error { return nil }
 
+// Unread returns the number of bytes this end has written that the peer has
+// not read yet.
+func (e *End) Unread() int {
+	e.wr.mu.Lock()
+	defer e.wr.mu.Unlock()
+	n := 0
+	for _, c := range e.wr.chunks {
+		n += len(c)
+	}
+	return n
+}
+
 // Closed reports whether this end was closed (by its owner).
 func (e *End) Closed() bool {
 	select {
